@@ -2,6 +2,7 @@
 from __future__ import annotations
 
 import ast
+import re
 
 from verif import extract
 from verif.common import Ctx, Ob, Outcome, Witness
@@ -27,8 +28,38 @@ def _w(what, key, lineno=None, detail=""):
     return Witness(what=what, key=key, input=f"L{lineno}" if lineno else key, verifier_output=detail or what)
 
 
+def _norm_guard(test: str, positive: bool) -> tuple[str, bool]:
+    """`not X` under polarity p is X under polarity not p; redundant parentheses dropped; `len(X) == 0` / `X == []` is `not X`"""
+    t = test.strip()
+    changed = True
+    while changed:
+        changed = False
+        if t.startswith("(") and t.endswith(")") and t.count("(") == t.count(")") and "(" not in t[1:-1].split(")")[0] + "(" * 0 and _balanced(t[1:-1]):
+            t, changed = t[1:-1].strip(), True
+        if t.startswith("not "):
+            t, positive, changed = t[4:].strip(), not positive, True
+        m = re.fullmatch(r"len\((\w+)\) == 0|(\w+) == \[\]", t)
+        if m:
+            t, positive, changed = (m.group(1) or m.group(2)), not positive, True
+        m = re.fullmatch(r"len\((\w+)\) > 0|len\((\w+)\) != 0|(\w+) != \[\]", t)
+        if m:
+            t, changed = (m.group(1) or m.group(2) or m.group(3)), True
+    return t, positive
+
+
+def _balanced(t: str) -> bool:
+    d = 0
+    for ch in t:
+        d += ch == "("
+        d -= ch == ")"
+        if d < 0:
+            return False
+    return d == 0
+
+
 def _has(guards, text, positive=True):
-    return any(g.test == text and g.positive == positive for g in guards)
+    want = _norm_guard(text, positive)
+    return any(_norm_guard(g.test, g.positive) == want for g in guards)
 
 
 def _status_of_returns(mod, q, helper, var, wits, count):
